@@ -1973,6 +1973,42 @@ def check_C11(ctx):
                     ok = (o[0].endswith('1]') if N > 0 else o[1].endswith('1]')) if len(o) >= 2 else False
                     if not ok:
                         ctx.oracle_fail('mate-announcement-untrue', cmd, {'line': l, 'fen': fen, 'rules': o[:2]})
+    # attacking positions with many pieces (mates of three and more moves are common there): every `mate N` with |N| <= 2
+    # that the engine announces at depth 5 / 6 must exist by the rules' exhaustive search
+    rng2 = random.Random(ctx.seed + 977)
+    n_att = 0
+    tries = 0
+    while n_att < (40 if ctx.quick else 500) and tries < 4000:
+        tries += 1
+        pieces = list(rng2.choice(['KQRkpp', 'KQRRkrp', 'KQQkqp', 'KQRBkrpp', 'KQRNkbpp', 'KRRBkpp', 'KQRkrnpp', 'KQBNkrp']))
+        sqs = rng2.sample(range(64), len(pieces))
+        b = ['1'] * 64
+        bad = False
+        for pc, sq in zip(pieces, sqs):
+            if pc == 'p' and (sq < 8 or sq >= 56): bad = True
+            b[sq] = pc
+        if bad: continue
+        fen = board_to_rows(b) + ' w - - 0 1'
+        if rng2.random() < 0.5: fen = color_mirror_fen(fen)
+        w = ctx.model.ask('oracle wf ' + fen + ' ; ')
+        if not w or not w[0].startswith('wf 1 nk 1'): continue
+        info = legal_info(ctx, fen)
+        if not info or info[3] != 'no': continue
+        n_att += 1
+        for d in (5, 6):
+            cmd = f'search fen {fen} ; depth={d}'
+            so = run_search(ctx, 'fen ' + fen, f'depth={d}', model=False)
+            ctx.count('attack-position-searches')
+            for l in so.infos:
+                m = INFO_RE.match(l)
+                if not m or not m.group(1).startswith('mate'): continue
+                N = int(m.group(1).split()[1])
+                ctx.count('attack-position-mate-claims')
+                if N != 0 and abs(N) <= 2:
+                    o = ctx.model.ask(f'oracle mate {fen} ; {abs(N)}')
+                    ok = (o[0].endswith('1]') if N > 0 else o[1].endswith('1]')) if len(o) >= 2 else False
+                    if not ok:
+                        ctx.oracle_fail('mate-announcement-untrue', cmd, {'line': l, 'fen': fen, 'rules': o[:2]})
     # warm table along a short game: mate scores re-based through the table keep their meaning
     warm = [x for x in mp.items() if x[1] == 'mate-in-3'] + [x for x in mp.items() if x[1] in ('mate-in-2', 'mated-in-2')][: (10 if ctx.quick else 300)]
     for fen, kind in warm:
